@@ -12,6 +12,8 @@ OPEN_MODES = [("ihello", "ihello<esc>"), ("Aend", "Aend<esc>"), ("oline", "oline
               ("o", "o<esc>"), ("A<CR>", "A<CR><esc>"), ("O", "O<esc>"), ("Go", "Go<esc>"), ("GA<CR>", "GA<CR><esc>"), ("$vl", "$vl<esc>"), ("G$v", "G$v<esc>")]
 COMPLETE_EXTRA = ["dvw", "dVj", '"ayw', '"Ayw', '"ap', "fa;", "tb,", "fa2;", "x.", "dw.", "/o<CR>n", "/a<CR>N", "?o<CR>n", "3x", "2dw", "yyp", "ddP", "xu",
                   "ixy<esc>.", ":s/a/b/<CR>", "vey", "viwd", "guiw", "~", "J", "rZ",
+                  # undo and redo with nothing to take back or re-apply: a no-op, not an error that drops the rest of the argument
+                  "u", "<c-r>", "xuu", "uu", "x<c-r>", "xu<c-r><c-r>",
                   # :normal! runs its keys once per line and is over at its <CR>: what follows it in the argument comes after all of that
                   ":1,2normal! x<CR>", ":%normal! Ax<CR>", ":1,3normal! dw<CR>", ":normal! d<CR>", ":1,2normal! 2<CR>", ":%normal! ~<CR>",
                   # an operator on a selection ends Visual mode: what is typed next in the same argument is a Normal-mode command
